@@ -1,6 +1,7 @@
 (* C04 - property theorems only. *)
 From Coq Require Import String.
 From V Require Import Lib.Base Lib.Cbor Lib.CborParse C04.Model C04.Gen C04.Proofs.
+From V Require C22.Model C22.Props.
 Local Open Scope N_scope.
 Ltac vc := vm_compute; reflexivity.
 Ltac conj_vc := repeat (match goal with |- _ /\ _ => split; [vc|] end); vc.
@@ -104,6 +105,72 @@ Proof.
   repeat (destruct H as [<-|H]; [split; reflexivity|]). destruct H.
 Qed.
 Print Assumptions C04_point_no_coercion.
+
+(* Maps (handshake version tables, Leios bitmaps): only from a CBOR map whose
+   decoded keys are pairwise distinct. *)
+Theorem C04_map : forall ind w e i v, dec_s (SMapU ind w e) i = Some v ->
+  is_nil (strip i) = true \/
+  exists f kvs l, strip i = Map f kvs /\ v = VMap l /\ length l = length kvs /\ nodup_keys (map fst l) = true.
+Proof.
+  intros ind w e i v. unfold dec_s. rewrite dec_g_map. destruct (is_nil (strip i)); [left; reflexivity|]. right. revert H.
+  destruct (strip i) as [| | | | | | |f kvs| | |]; try discriminate.
+  destruct (dec_kvs dec_point w e 0 kvs) as [l|] eqn:D; [|discriminate].
+  destruct (nodup_keys (map fst l)) eqn:ND; [|discriminate]. intros H. injection H as <-.
+  exists f, kvs, l. repeat split; auto.
+  clear ND. revert l D. generalize 0. induction kvs as [|[k x] r IH]; intros prev l D; cbn [dec_kvs] in D.
+  - injection D as <-. reflexivity.
+  - destruct (dec_key w prev k) as [k'|]; [|discriminate]. destruct (dec_g dec_point e x); [|discriminate].
+    destruct (dec_kvs dec_point w e k' r) as [vs|] eqn:E; [|discriminate]. injection D as <-. cbn [length]. f_equal. eapply IH. exact E.
+Qed.
+Print Assumptions C04_map.
+
+(* Peer addresses: an array headed by a plain unsigned peer type 0 (IPv4: two
+   more elements) or 1 (IPv6: five, or seven in the legacy form). *)
+Theorem C04_peer : forall i v, dec_s SPeer i = Some v ->
+  exists f g id rest, i = Arr f (UInt g id :: rest) /\
+    ((id = 0 /\ length rest = 2%nat) \/ (id = 1 /\ (length rest = 5%nat \/ length rest = 7%nat))).
+Proof.
+  intros i v. unfold dec_s. cbn [dec_g]. unfold dec_peer.
+  destruct i as [| | | | | |f xs| | | |]; try discriminate. destruct xs as [|x rest]; [discriminate|].
+  destruct x as [g id| | | | | | | | | |]; try discriminate. intros H. exists f, g, id, rest. split; [reflexivity|].
+  destruct (N.eqb_spec id 0) as [->|_].
+  - left. split; [reflexivity|]. destruct rest as [|a [|b [|c r]]]; try discriminate. reflexivity.
+  - destruct (N.eqb_spec id 1) as [->|_]; [|discriminate]. right. split; [reflexivity|].
+    destruct rest as [|a1 [|a2 [|a3 [|a4 [|a5 [|a6 [|a7 [|a8 r]]]]]]]]; try discriminate; auto.
+Qed.
+Print Assumptions C04_peer.
+
+(* fixed-size byte arrays ([32]byte transaction ids): the library copies what
+   fits - a short id is zero-padded, a long one truncated (known finding,
+   coerce:struct-field:short/long-bytes-for-array) *)
+Theorem C04_fixed_array_refuted :
+  dec_s (SBytesN 4) (BStr Fimm [1; 2; 3]) = Some (VBytes [1; 2; 3; 0]) /\
+  dec_s (SBytesN 4) (BStr Fimm [1; 2; 3; 4; 5]) = Some (VBytes [1; 2; 3; 4]).
+Proof. conj_vc. Qed.
+
+(* The chain-sync RollForward wrappers (hand-written in both directions) are
+   modelled and proved in coq/C22; their round trips, restated. *)
+Theorem C04_rollforward_ntc : forall t b tip trail,
+  wf b -> wf tip -> C22.Model.tip_ok tip = true -> t < 2 ^ 64 ->
+  N.of_nat (length (enc b)) + 10 < 2 ^ 64 ->
+  exists m, C22.Model.wrap_ntc t (enc b) tip = Some m /\
+            C22.Model.unwrap_ntc (enc m ++ trail) = Some (t, enc b, tip).
+Proof. exact C22.Props.C22_ntc. Qed.
+
+(* non-vacuity for the hand-encoded types *)
+Example C04_txsubmission_ex :
+  let v := VStruct [VUInt 3; VList [VStruct [VUInt 6; VBytes [128]]]] in
+  enc_s sch_txsubmission_MsgReplyTxs v
+    = Some (Arr (Some Fimm) [UInt Fimm 3; Arr None [Arr (Some Fimm) [UInt Fimm 6; Tag F1 24 (BStr Fimm [128])]]])
+  /\ forall i, enc_s sch_txsubmission_MsgReplyTxs v = Some i -> dec_s sch_txsubmission_MsgReplyTxs i = Some v.
+Proof. split; [vc|]. intros i. apply C04_dec_enc_s. Qed.
+Example C04_handshake_ex :
+  let v := VStruct [VUInt 0; VMap [(13, VRaw (UInt Fimm 1)); (14, VRaw (UInt Fimm 2))]] in
+  exists i, enc_s sch_handshake_MsgProposeVersions v = Some i /\ dec_s sch_handshake_MsgProposeVersions i = Some v.
+Proof. eexists. split; [vm_compute; reflexivity|vc]. Qed.
+Example C04_map_dup_ex :
+  dec_s sch_handshake_MsgProposeVersions (Arr (Some Fimm) [UInt Fimm 0; Map (Some Fimm) [(UInt Fimm 13, UInt Fimm 1); (UInt Fimm 13, UInt Fimm 2)]]) = None.
+Proof. vc. Qed.
 
 (* non-vacuity: a chain-sync RollBackward with a real point and tip *)
 Example C04_roundtrip_ex :
